@@ -10,6 +10,7 @@
 // Python side's business.
 #include "drv.h"
 #include <symengine/matrix.h>
+#include <symengine/cwrapper.h>
 
 using namespace SymEngine;
 using namespace vd;
@@ -210,10 +211,11 @@ OP(dm_shape)
 }
 OP(dm_eye)
 {
+    // an offset outside the matrix is allowed by the routine (it handles it with zeros(A))
     unsigned r = argU(a, 0), c = argU(a, 1);
     long k = argLong(a, 2);
-    if (r == 0 || c == 0 || k >= (long)c || -k >= (long)r)
-        throw Decline("eye: diagonal offset outside the matrix");
+    if (r == 0 || c == 0 || k > (long)MAXDIM || -k > (long)MAXDIM)
+        throw Decline("eye: non-empty matrix, bounded offset");
     DMP m = newDM(r, c);
     eye(*m, (int)k);
     return vDM(m);
@@ -344,6 +346,56 @@ OP(dm_submatrix)
     else
         A->submatrix(*C, r0, c0, r1, c1);
     return vDM(C);
+}
+OP(dm_submatrix_c)
+{
+    // the C wrapper allocates the result itself: (dm_submatrix_c A r0 c0 r1 c1 rstep cstep)
+#if defined(WITH_SYMENGINE_RCP)
+    DMP A = argDM(a, 0);
+    unsigned r0 = argU(a, 1), c0 = argU(a, 2), r1 = argU(a, 3), c1 = argU(a, 4), rs = argU(a, 5), cs = argU(a, 6);
+    if (r1 < r0 || c1 < c0 || r1 >= A->nrows() || c1 >= A->ncols() || rs == 0 || cs == 0)
+        throw Decline("submatrix: index range");
+    need_init(*A);
+    CDenseMatrix *ca = dense_matrix_new_rows_cols(A->nrows(), A->ncols());
+    CDenseMatrix *cs_ = dense_matrix_new();
+    basic x;
+    basic_new_stack(x);
+    struct Guard {
+        CDenseMatrix *p, *q;
+        basic_struct *x;
+        ~Guard()
+        {
+            basic_free_stack(x);
+            dense_matrix_free(p);
+            dense_matrix_free(q);
+        }
+    } guard{ca, cs_, x};
+    for (unsigned i = 0; i < A->nrows(); i++)
+        for (unsigned j = 0; j < A->ncols(); j++) {
+            // hand the entry over through the C handle (same layout as RCP<const Basic>, see cwrapper.h)
+            RCP<const Basic> e = A->get(i, j);
+            basic_free_stack(x);
+            basic_new_stack(x);
+            static_assert(sizeof(basic_struct) == sizeof(RCP<const Basic>), "basic_struct layout");
+            *reinterpret_cast<RCP<const Basic> *>(x) = e;
+            if (dense_matrix_set_basic(ca, i, j, x) != 0)
+                throw SymEngineException("dense_matrix_set_basic failed");
+        }
+    int rc = dense_matrix_submatrix(cs_, ca, r0, c0, r1, c1, rs, cs);
+    if (rc != 0)
+        throw SymEngineException("dense_matrix_submatrix returned error code " + std::to_string(rc));
+    unsigned rr = (unsigned)dense_matrix_rows(cs_), cc = (unsigned)dense_matrix_cols(cs_);
+    DMP R_ = newDM(rr, cc);
+    for (unsigned i = 0; i < rr; i++)
+        for (unsigned j = 0; j < cc; j++) {
+            if (dense_matrix_get_basic(x, cs_, i, j) != 0)
+                throw SymEngineException("dense_matrix_get_basic failed");
+            R_->set(i, j, *reinterpret_cast<RCP<const Basic> *>(x)); // may be null: entry never assigned
+        }
+    return vDM(R_);
+#else
+    throw Decline("needs WITH_SYMENGINE_RCP");
+#endif
 }
 OP(dm_row_join)
 {
